@@ -1,17 +1,20 @@
 #!/bin/sh
-# tries every seeded change against its property's quick check (in scratch worktrees) and writes seeded/RESULTS.md
+# tries every seeded change against its property's quick check (in scratch worktrees, four at a time) and writes seeded/RESULTS.md
 cd /verif
-out=seeded/RESULTS.md
-echo "| change | property checked | result |" > $out
-echo "|---|---|---|" >> $out
-for d in seeded/C*_*; do
-  s=$(basename $d)
-  r=$(tools/try_seeded.sh $s quick 2>&1 | tail -2 | tr '\n' ' ')
+tmp=$(mktemp -d /tmp/allseeded.XXXXXX)
+ls -d seeded/C*_* | xargs -n1 basename | xargs -P 4 -I{} sh -c '
+  s={}; tmp='$tmp'
+  r=$(tools/try_seeded.sh $s quick 2>&1 | tail -2 | tr "\n" " ")
   case "$r" in
     *"exit=1"*) v="caught"; echo "$r" | grep -q "no-failing-input-found" && v="caught (no-failing-input-found)";;
     *"exit=0"*) v="NOT caught";;
+    *"exit=3"*) v="does not apply to the current tree (neutralised by a fix commit)";;
     *) v="error: $r";;
   esac
-  echo "| $s | $(echo $s | cut -d_ -f1) | $v |" >> $out
-done
+  echo "| $s | $(echo $s | cut -d_ -f1) | $v |" > $tmp/$s'
+out=seeded/RESULTS.md
+echo "| change | property checked | result |" > $out
+echo "|---|---|---|" >> $out
+cat $tmp/C* >> $out
+rm -rf $tmp
 cat $out
